@@ -128,7 +128,8 @@ impl StateCheck for C02 {
         if comps.data.is_empty() {
             return;
         }
-        for fs in ["PENINSULA", "CANARIAS", "SKEW", "SKEW+COGEN", "RAW_J(unprepared)"] {
+        let sets: &[&str] = if text.len() > 100_000 { &["PENINSULA", "SKEW+COGEN"] } else { &["PENINSULA", "CANARIAS", "SKEW", "SKEW+COGEN", "RAW_J(unprepared)"] };
+        for fs in sets {
             for (k, area, lm) in [(0.0f32, 1.0f32, false), (0.25, 4.0, true), (1.0, 4.0, false)] {
                 compare(&comps, fs, k, area, lm, out);
             }
